@@ -35,15 +35,22 @@ if [ "$MODE" = replay ]; then
   F=$2
   MS=$(python3 -c "import json,sys;print(json.load(open(sys.argv[1])).get('miri_seed',0))" "$F")
   PR=$(python3 -c "import json,sys;print(json.load(open(sys.argv[1])).get('preemption_rate',0.1))" "$F")
-  miri "$MS" "$PR" miri-run "$SEED" 0 0 "$F" >"$OUT/miri/replay.log" 2>&1; CODE=$?
-  grep -E "MIRI-RUN|Undefined Behavior|error:" "$OUT/miri/replay.log" | head -5
+  # exact replay: the same Miri seed and rate over the same scenario range in one process
+  # (Miri's schedule is a function of its seed and of everything executed before)
+  read -r BSEED BFROM BTO < <(python3 -c "import json,sys;b=json.load(open(sys.argv[1])).get('batch') or {};print(b.get('seed',0),b.get('from',0),b.get('to',0))" "$F")
+  if [ "$BTO" -gt "$BFROM" ]; then
+    miri "$MS" "$PR" miri-run "$BSEED" "$BFROM" "$BTO" >"$OUT/miri/replay.log" 2>&1; CODE=$?
+  else
+    miri "$MS" "$PR" miri-run "$SEED" 0 0 "$F" >"$OUT/miri/replay.log" 2>&1; CODE=$?
+  fi
+  grep -E "MISMATCH|Undefined Behavior|^error" "$OUT/miri/replay.log" | cut -c1-600 | head -5
   if [ $CODE -ne 0 ]; then echo "VIOLATION property=C17 replay=$F"; exit 1; fi
   echo "REPLAY held property=C17"; exit 0
 fi
 
 case "$MODE" in
-  quick) PROCS=16; PER=2; ROUNDS=1;;
-  thorough) PROCS=16; PER=8; ROUNDS=10;;
+  quick) PROCS=16; PER=2; ROUNDS=1;;      # 32 indices x (1 general + 2 high-contention) = 96 scenario runs
+  thorough) PROCS=16; PER=6; ROUNDS=10;;  # 960 indices = 2880 scenario runs
   *) echo "usage: miri/run.sh build|quick|thorough|replay <file>"; exit 2;;
 esac
 T0=$(date +%s)
@@ -79,15 +86,15 @@ for f in sorted(glob.glob(os.path.join(out, "miri", "run-*.log"))):
     ok += len(oks); runs += len(oks)
     for mm in re.finditer(r"MIRI-RUN idx=(\d+) MISMATCH class=(\S+) detail: (.*)\nMIRI-SCENARIO (.*)", s):
         runs += 1
-        viol.append(dict(cls=mm.group(2), detail=mm.group(3), idx=int(mm.group(1)), miri_seed=ms, rate=rate, scenario=json.loads(mm.group(4))))
+        viol.append(dict(cls=mm.group(2), detail=mm.group(3), idx=int(mm.group(1)), miri_seed=ms, rate=rate, scenario=json.loads(mm.group(4)), batch=dict(seed=seed, **{"from": frm, "to": to})))
     if "Undefined Behavior" in s or (code != 0 and not re.search(r"MISMATCH", s)):
         ub = re.search(r"error: Undefined Behavior: (.*)", s)
         text = ub.group(1) if ub else "miri exited with %d: %s" % (code, s[-300:].replace("\n", " | "))
         done = len(oks)
-        idx = frm + done  # the scenario that was running
+        idx = frm + done // 3  # the index that was running (3 scenario runs per index)
         runs += 1
         cls = "data-race" if "ata race" in text else "miri-error"
-        viol.append(dict(cls=cls, detail=text, idx=idx, miri_seed=ms, rate=rate, scenario=None, log=f))
+        viol.append(dict(cls=cls, detail=text, idx=idx, miri_seed=ms, rate=rate, scenario=None, log=f, batch=dict(seed=seed, **{"from": frm, "to": to})))
 res = dict(mode=mode, seed=seed, processes=procs, scenario_runs=runs, ok=ok, wall_s=wall, violations=viol, harness=harness)
 json.dump(res, open(os.path.join(out, "miri-summary.json"), "w"), indent=1)
 PY
@@ -112,8 +119,13 @@ for v in res["violations"]:
         print("NOTE: Miri reported a non-race error in scenario %d (miri seed %d): %s" % (v["idx"], v["miri_seed"], v["detail"][:300]))
         v["counted"] = False
         continue
+    n_written = sum(1 for x in res["violations"] if x.get("counted"))
+    if n_written >= 3:
+        v["counted"] = True
+        code = 1
+        continue
     path = os.path.join(out, "replays", "C17-miri-%s-%d-%d.json" % (v["cls"], v["idx"], v["miri_seed"]))
-    json.dump(dict(engine="miri", property="C17", **{"class": v["cls"]}, detail=v["detail"], seed=int(seed), miri_seed=v["miri_seed"], preemption_rate=v["rate"], scenario=scen, note="replay: ./check C17 --replay <this file> (re-runs Miri with the same seed, rate and scenario)"), open(path, "w"), indent=1)
+    json.dump(dict(engine="miri", property="C17", **{"class": v["cls"]}, detail=v["detail"], seed=int(seed), miri_seed=v["miri_seed"], preemption_rate=v["rate"], batch=v.get("batch"), scenario=scen, note="replay: ./check C17 --replay <this file> (re-runs Miri with the same seed, rate and scenario)"), open(path, "w"), indent=1)
     print("violation class=%s generator=miri index=%d detail: %s" % (v["cls"], v["idx"], v["detail"][:400]))
     print("VIOLATION property=C17 replay=%s" % path)
     v["counted"] = True
